@@ -434,6 +434,11 @@ class Gen:
         if conn not in self.dead and not down:
             self.assoc[conn] = True
 
+    def refuse_writes(self, n=1):
+        """the datapath answers the next n writes with 'request rejected' (only in the fixed scenarios)"""
+        self.events.append({"k": "dp_fail", "conn": n})
+        self.intents.append({"op": "datapath", "up": True, "conn": 0, "refuse": n})
+
     def datapath(self, up):
         """the BESS daemon goes away / comes back (only in the fixed scenarios; not part of the Coq-replayed histories)"""
         self.dp_is_down = not up
@@ -624,14 +629,17 @@ class Gen:
                   {"op": "est", "seq": seq, "req": P.SE_REQ, "wf": True, "expect": "reject" if assoc_ok else "reject-noassoc",
                    "kind": "bad:" + kind, "lseid": (conn + 1) * 1000000 + k, "cp_seid": cp_seid, "pdrs": pdrs, "fars": fars, "qers": qers})
 
-    def delete(self, lseid, conn=None):
+    def delete(self, lseid, conn=None, refused=False):
+        """refused: the datapath was told to refuse the write (refuse_writes): the deletion is rejected, the session stays"""
         seq = self._seq()
         known = lseid in self.sessions and (conn is None or self.sessions[lseid]["conn"] == conn)
         c = self.sessions[lseid]["conn"] if conn is None else conn
+        ok = known and not refused
         self.emit(c, P.message(P.SD_REQ, seq, [], seid=lseid),
-                  {"op": "del", "seq": seq, "req": P.SD_REQ, "wf": True, "lseid": lseid, "expect": "accept" if known else "reject-unknown",
-                   "cp_seid": self.sessions[lseid]["cp_seid"] if known else None, "ends": [lseid] if known else []})
-        if known:
+                  {"op": "del", "seq": seq, "req": P.SD_REQ, "wf": True, "lseid": lseid,
+                   "expect": "accept" if ok else ("reject" if known else "reject-unknown"),
+                   "cp_seid": self.sessions[lseid]["cp_seid"] if known else None, "ends": [lseid] if ok else []})
+        if ok:
             del self.sessions[lseid]
 
     def report_response(self, lseid, conn, cause=P.CAUSE_CTX_NOT_FOUND):
@@ -812,7 +820,7 @@ def mon_c02(case, intents, obs):
             break
         rs = replies_of(o)
         if it.get("op") in ("teardown", "restart", "report", "datapath"):
-            if it.get("op") == "datapath" and it["up"] != (o.get("dp_state") == "READY"):
+            if it.get("op") == "datapath" and "refuse" not in it and it["up"] != (o.get("dp_state") == "READY"):
                 out.append(("harness:datapath-state", f"event {i}: the gRPC channel is {o.get('dp_state')} after the datapath went {'up' if it['up'] else 'down'}", i))
             continue
         req = it.get("req")
@@ -1218,6 +1226,11 @@ def mon_c06(case, intents, obs):
             out.append(("pool-not-conserved", f"event {i} ({it.get('op')}/{it.get('kind', '')}): free {pools.get('ip_free')} + held {len(inv)} != {size - 2}", i))
         if len(set(inv.values())) != len(inv):
             out.append(("address-held-twice", f"event {i}: one address in the inventory for two sessions: {inv}", i))
+        for s_ in o["store"]:
+            for p_ in s_["pdrs"]:
+                if p_["alloc_ip"] and inv.get(s_["lseid"]) != p_["ue"]:
+                    out.append(("live-address-not-held", f"event {i} ({it.get('op')}/{it.get('kind', '')}): session {s_['lseid']} uses the UPF-chosen address "
+                                f"{p_['ue']} but the pool records {inv.get(s_['lseid'])} for it (the address can be handed to another session)", i))
         ghosts = sorted(set(inv) - live)
         if ghosts:
             out.append(("address-held-by-no-session", f"event {i} ({it.get('op')}/{it.get('kind', '')}): addresses held for sessions that do not exist {ghosts}", i))
@@ -1285,4 +1298,41 @@ def soak_scenarios(rng):
         for e in g.events[:-3]:
             e["q"] = True
         out.append((f"130-heartbeats-before-and-after-association/hb_timer={hb}", {"cfg": g.cfg, "events": g.events}, g.intents, 3))
+    return out
+
+
+def pool_scenarios(rng):
+    """fixed histories on tiny pools for C06 / C05 (monitor only, not replayed on the Coq model):
+    -> (name, case, intents, number of probe events at the end)"""
+    out = []
+    # a refused datapath write on deletion: the session stays and keeps its address
+    g = Gen(rng, cfg=default_cfg(pool="10.250.0.8/30"))
+    g.setup(0)
+    a = g.establish(0, npairs=1, nqers=1, chv4=True, choose=True)
+    g.refuse_writes(1)
+    g.delete(a, refused=True)
+    b = g.establish(0, npairs=1, nqers=0, chv4=True, choose=True)     # must get the other address
+    g.delete(a)
+    c = g.establish(0, npairs=1, nqers=0, chv4=True, choose=False)    # a's address is free again
+    g.delete(b)
+    g.delete(c)
+    g.heartbeat(0)
+    out.append(("refused-deletion-keeps-the-session", {"cfg": g.cfg, "events": g.events}, g.intents, 1))
+    # two downlink PDRs share the session's one UPF-chosen address; one of them is removed; the pool is cycled
+    g = Gen(rng, cfg=default_cfg(pool="10.250.0.8/29"))
+    g.setup(0)
+    a = g.establish(0, npairs=2, nqers=1, chv4=True, choose=True)
+    g.modify(a, kind="rm_pair")
+    others = []
+    for _ in range(5):
+        others.append(g.establish(0, npairs=1, nqers=0, chv4=True, choose=False))
+    for l in others[:3]:
+        g.delete(l)
+    for _ in range(3):
+        others.append(g.establish(0, npairs=1, nqers=0, chv4=True, choose=False))
+    g.delete(a)
+    for l in others[3:]:
+        g.delete(l)
+    g.heartbeat(0)
+    out.append(("shared-address-after-remove-pdr", {"cfg": g.cfg, "events": g.events}, g.intents, 1))
     return out
